@@ -62,12 +62,13 @@ def parse_verus_errors(stderr, linemap, fname):
             if m.group(1):
                 msg = "rustc " + m.group(1) + " " + msg   # a compiler (type/borrow) error is never a proof verdict
             line = None
+            col = None
             snippet = ""
             j = i + 1
             while j < len(lines) and not re.match(r"(error|warning|note)(\[|:)", lines[j]):
                 mm = re.match(r"\s*--> .*?:(\d+):(\d+)", lines[j])
                 if mm and line is None:
-                    line = int(mm.group(1))
+                    line = int(mm.group(1)); col = int(mm.group(2))
                 ms = re.match(r"\s*(\d+) \| (.*)$", lines[j])
                 if ms and line is not None and int(ms.group(1)) == line and not snippet:
                     snippet = ms.group(2).strip()
@@ -78,11 +79,30 @@ def parse_verus_errors(stderr, linemap, fname):
                     if a <= line <= b:
                         where = w
                         break
-            errs.append({"msg": msg, "line": line, "snippet": snippet, "where": where})
+            errs.append({"msg": msg, "line": line, "col": col, "snippet": snippet, "where": where})
             i = j
             continue
         i += 1
     return errs
+
+
+def scaffolding_obligation(e, assembled):
+    """is the failed obligation part of the PROOF (loop invariant, decreases, precondition of a proof-fn call) rather than a
+    contract obligation of the code?"""
+    msg = e["msg"]
+    if re.search(r"invariant not satisfied|decreases not satisfied", msg):
+        return True
+    if msg.startswith("precondition not satisfied") and assembled and e.get("line") and e.get("col"):
+        try:
+            text = open(assembled).read()
+            src = text.split("\n")[e["line"] - 1][e["col"] - 1:]
+        except (OSError, IndexError):
+            return False
+        m = re.match(r"([A-Za-z_][A-Za-z0-9_]*(?:\s*::\s*[A-Za-z_][A-Za-z0-9_]*)*)\s*(?:::\s*<[^()]*>)?\s*\(", src)
+        if m:
+            name = m.group(1).split("::")[-1].strip()
+            return re.search(r"\bproof\s+fn\s+%s\b" % re.escape(name), text) is not None
+    return False
 
 
 def obligation_id(unit, e):
@@ -431,6 +451,14 @@ def report(prop, tier, seed, cfg, results, kres, known, t0, selftest=()):
                         # proof hints (a Verus `assert`, not an assertion of the code): the hint may simply no longer
                         # fit the new text. Contract clauses (post/pre-conditions, loop invariants) stay verdicts.
                         undecided.append("%s: proof hint failed in %s after mirror drift (%s)" % (unit, e["where"], e["snippet"][:80]))
+                        continue
+                    structural = any(x.get("rule") == "mirror-drift" and x.get("where") == e["where"] and x.get("structural") for x in info["rewrites"])
+                    if structural and scaffolding_obligation(e, r.get("assembled")):
+                        # statements of this function were added / removed / moved relative to the authoring-time mirror, and what
+                        # failed is PROOF SCAFFOLDING carried over by position (a loop invariant, a decreases clause, the
+                        # precondition of a lemma call): it may simply sit in the wrong place now. Contract obligations of the
+                        # code (postconditions, preconditions of executable callees, overflow / bounds / panic) stay verdicts.
+                        undecided.append("%s: proof scaffolding failed in %s after STRUCTURAL mirror drift (%s: %s)" % (unit, e["where"], e["msg"], e["snippet"][:80]))
                         continue
                     oid = obligation_id(unit, e)
                     kh = [k for k in known if k.get("obligation") == oid]
